@@ -10,7 +10,7 @@ if ! git -C "$wt" apply "$patch"; then echo "PATCH DOES NOT APPLY"; git -C /repo
 caught=1
 cd /verif
 for c in "$@"; do
-  out=$(VERIF_REPO="$wt" timeout 1500 ./run_check.py "$c" --tier "$tier" 2>&1); rc=$?
+  out=$(VERIF_REPO="$wt" VERIF_OUT="$wt/_verif_out" timeout 1500 ./run_check.py "$c" --tier "$tier" 2>&1); rc=$?
   nv=$(printf '%s\n' "$out" | grep -c '^VIOLATION')
   first=$(printf '%s\n' "$out" | grep -A1 '^VIOLATION' | grep 'what:' | head -1 | cut -c1-220)
   echo "$c rc=$rc violations=$nv $first"
